@@ -8,6 +8,7 @@ import Relic.Driver.PS
 import Relic.Driver.MSI
 import Relic.Driver.Jar
 import Relic.Driver.Apk
+import Relic.Driver.ZipRw
 import Relic.Driver.C20
 import Relic.Driver.C15
 import Relic.Driver.C06
@@ -35,6 +36,7 @@ def dispatch (line : String) : String :=
   | "MSI" :: rest => Relic.Driver.MSI.handle rest
   | "JAR" :: rest => Relic.Driver.Jar.handle rest
   | "APK" :: rest => Relic.Driver.Apk.handle rest
+  | "ZIPRW" :: rest => Relic.Driver.ZipRw.handle rest
   | "C20" :: rest => Relic.Driver.C20.handle rest
   | "C15" :: rest => Relic.Driver.C15.handle rest
   | "C06" :: rest => Relic.Driver.C06.handle rest
